@@ -588,21 +588,21 @@ Fixpoint def_labels (st : sstate) (labs : list name) : option sstate :=
       end
   end.
 
-(* labels, statement name and the position after it: {name ':' [NL]}* name *)
+Fixpoint skip_nl (ts : list ttok) : list ttok :=
+  match ts with TNL :: r => skip_nl r | _ => ts end.
+
+(* labels, statement name and the position after it: {name ':' NL*}* name  (after a label any number of
+   newline tokens - empty and comment-only lines - is skipped: while (t.code == TC_NL) scan_token) *)
 Fixpoint parse_labels (fuel : nat) (ts : list ttok) (acc : list name) : option (list name * name * list ttok) :=
   match fuel with
   | O => None
   | S f =>
       match ts with
-      | TName n :: TCol :: TNL :: r => parse_labels f r (n :: acc)
-      | TName n :: TCol :: r => parse_labels f r (n :: acc)
+      | TName n :: TCol :: r => parse_labels f (skip_nl r) (n :: acc)
       | TName n :: r => Some (rev acc, n, r)
       | _ => None
       end
   end.
-
-Fixpoint skip_nl (ts : list ttok) : list ttok :=
-  match ts with TNL :: r => skip_nl r | _ => ts end.
 
 Inductive sstep : Set := SNext (st : sstate) (rest : list ttok) | SDone (st : sstate) | SFail (why : string).
 
